@@ -131,18 +131,32 @@ func runProgFast(p *Prog) *Result {
 	for _, im := range p.Imports {
 		fmt.Fprintf(&src, "import %q\n", im)
 	}
-	src.WriteString(p.plainSrc())
-	var expr *fast.Expr
-	if r, bad := guard(func() { expr = ir.Compile(src.String()) }); bad {
-		res.End = "compile-error"
-		res.CompileErr = panicText(r)
-		return finish()
+	pieces := []string{}
+	if len(p.Chunks) > 0 {
+		pieces = append(pieces, src.String())
+		for _, c := range p.Chunks {
+			pieces = append(pieces, strings.ReplaceAll(c, "§", ""))
+		}
+	} else {
+		src.WriteString(p.plainSrc())
+		pieces = append(pieces, src.String())
 	}
-	if expr != nil {
-		if r, bad := guard(func() { ir.RunExpr(expr) }); bad {
-			res.End = "panic:" + tr.PanicClass(r)
-			res.Detail = "during declarations: " + panicText(r)
+	for i, piece := range pieces {
+		if strings.TrimSpace(piece) == "" {
+			continue
+		}
+		var expr *fast.Expr
+		if r, bad := guard(func() { expr = ir.Compile(piece) }); bad {
+			res.End = "compile-error"
+			res.CompileErr = fmt.Sprintf("chunk %d: %s", i, panicText(r))
 			return finish()
+		}
+		if expr != nil {
+			if r, bad := guard(func() { ir.RunExpr(expr) }); bad {
+				res.End = "panic:" + tr.PanicClass(r)
+				res.Detail = "during declarations: " + panicText(r)
+				return finish()
+			}
 		}
 	}
 	steps := p.Steps
